@@ -444,6 +444,10 @@ func init() {
 		Quick:    60 * time.Second,
 		Thorough: 25 * time.Minute,
 		Run: func(w *fw.W) {
+			if avm.VerifDegraded {
+				w.Notes = append(w.Notes, "HARNESS ERROR: C11 needs the private flat-index lookups of the state-change recorder; the export overlay does not compile against this tree (private representation changed), so the property cannot be judged")
+				return
+			}
 			ops := c11Alphabet(w.Thorough())
 			history := func(h []int) []c11Op {
 				out := make([]c11Op, len(h))
